@@ -321,7 +321,15 @@ fn worker(args: &[String]) -> i32 {
       if !shrunk_classes.insert(viol.class.clone()) {
         continue;
       }
-      let budget = if matches!(property.as_str(), "C18" | "C19") { 80 } else { 250 };
+      // a listed known finding is reported, not minimised again
+      let known = known_findings();
+      let budget = if matches_known(&known, &property, &viol.class, &viol.detail).is_some() {
+        0
+      } else if matches!(property.as_str(), "C18" | "C19" | "C22" | "C23") {
+        80
+      } else {
+        250
+      };
       let s = shrink::shrink(&property, &sc, &viol.class, budget);
       // confirm in a fresh process and record the trace of the minimised run
       let confirm = run_isolated(&property, &s.scenario);
@@ -346,7 +354,9 @@ fn worker(args: &[String]) -> i32 {
         shrink_runs: s.runs,
         scenario,
       };
-      let dir = Path::new(VERIF).join("replays");
+      let dir = std::env::var_os("ORDSIM_REPLAY_DIR")
+        .map(PathBuf::from)
+        .unwrap_or_else(|| Path::new(VERIF).join("replays"));
       std::fs::create_dir_all(&dir).ok();
       let text = serde_json::to_string_pretty(&replay).unwrap();
       let mut h = 0xcbf29ce484222325u64;
@@ -657,7 +667,11 @@ pub fn finish(
     "wall_s": wall,
     "violations": unlisted,
   });
-  let dir = Path::new(VERIF).join("evidence");
+  // experiments against seeded defects write elsewhere, so that the committed
+  // evidence always describes a run on the unchanged tree
+  let dir = std::env::var_os("ORDSIM_EVIDENCE_DIR")
+    .map(PathBuf::from)
+    .unwrap_or_else(|| Path::new(VERIF).join("evidence"));
   std::fs::create_dir_all(&dir).ok();
   std::fs::write(
     dir.join(format!("{property}.json")),
